@@ -632,6 +632,66 @@ def analyze_round_classes(facts, fty):
     return ctx
 
 
+def analyze_hi64_classes(facts):
+    """C12, top-64-bit extraction from one and two limbs: the first limb r0 is partitioned by its number of leading zeros (64 classes covering
+    every non-zero value), the second limb r1 into {0}, [1, 2^(64-ls) - 1] (its bits that fall off the result are non-zero) and the rest.
+    On each class: the value is normalised (top bit set), and equals r0 << ls exactly when r1 contributes nothing; the 'lower bits non-zero'
+    flag is false for r1 = 0 and true when the dropped part of r1 is non-zero."""
+    ctx = Ctx(facts, "valid")
+    ctx.record = True
+    h1 = find_insts(facts, "minimal_lexical::bigint::u64_to_hi64_1")
+    h2 = find_insts(facts, "minimal_lexical::bigint::u64_to_hi64_2")
+    dummy = {"dpath": "minimal_lexical::bigint::u64_to_hi64_2", "path": "u64_to_hi64_2", "targs": [], "krate": "minimal_lexical"}
+    if not h1 or not h2:
+        ctx.oblige("post:hi64 helpers present", False, dummy, {}, "no instance of u64_to_hi64_1 / u64_to_hi64_2")
+        ctx.exits, ctx.wall = 0, 0.0
+        return ctx
+    top = 1 << 64
+
+    def run1(inst, ivs):
+        G.reset()
+        ov = {i + 1: (lambda st, key, lo=lo, hi=hi: new_int(lo, hi)) for i, (lo, hi) in enumerate(ivs)}
+        c2 = analyze_fn(facts, inst, "valid", overrides=ov, ctx=ctx)
+        val = flag = None
+        for st, rv in c2.exit_states:
+            if not isinstance(rv, Fields):
+                return None, None
+            v, f = rv.d.get((("f", 0),)), rv.d.get((("f", 1),))
+            if not (isinstance(v, int) and v in G.base and isinstance(f, int) and f in G.base):
+                return None, None
+            V, Fl = st.get_iv(v), st.get_iv(f)
+            val = V if val is None else (min(val[0], V[0]), max(val[1], V[1]))
+            flag = Fl if flag is None else (min(flag[0], Fl[0]), max(flag[1], Fl[1]))
+        return val, flag
+
+    bad = []
+    n = 0
+    for ls in range(64):
+        lo0, hi0 = 1 << (63 - ls), (1 << (64 - ls)) - 1
+        # one limb
+        val, flag = run1(h1[0], [(lo0, hi0)])
+        n += 1
+        if not (val is not None and val[0] >= 1 << 63 and val == (lo0 << ls, hi0 << ls) and flag == (0, 0)):
+            bad.append("u64_to_hi64_1 ls=%d: value %s flag %s" % (ls, val, flag))
+        # two limbs
+        cut = 1 << (64 - ls)                 # r1 = a * cut + b: a goes into the value, b is dropped
+        for r1c, want_flag, exact in (((0, 0), (0, 0), True), ((1, min(cut, top) - 1), (1, 1), ls == 0)):
+            val, flag = run1(h2[0], [(lo0, hi0), r1c])
+            n += 1
+            okv = val is not None and val[0] >= 1 << 63 and (not exact or val == (lo0 << ls, hi0 << ls))
+            if not (okv and flag == want_flag):
+                bad.append("u64_to_hi64_2 ls=%d r1 in %s: value %s flag %s (flag must be %s)" % (ls, r1c, val, flag, want_flag))
+        if ls > 0:
+            val, flag = run1(h2[0], [(lo0, hi0), (cut, top - 1)])
+            n += 1
+            if not (val is not None and val[0] >= 1 << 63):
+                bad.append("u64_to_hi64_2 ls=%d r1 >= 2^%d: value %s not normalised" % (ls, 64 - ls, val))
+    ctx.oblige("post:hi64 of one and two limbs on the leading-zero classes", not bad, h2[0], h2[0].get("span"),
+               "; ".join(bad[:3]) or "%d class runs" % n)
+    ctx.exits, ctx.wall = 0, 0.0
+    return ctx
+
+
 def analyze_masks(facts):
     """C18, bit-mask helpers for all widths 0..=64: the width range is partitioned into {0},{1},[2,62],{63},{64}; on each class the abstract
     result of lower_n_mask / lower_n_halfway / nth_bit must lie inside the hull of the definition (2^n - 1, 2^(n-1) or 0, 2^n) over that class.
@@ -834,6 +894,10 @@ if __name__ == "__main__":
         f = F.build(sys.argv[2], sys.argv[3])
         for fty in ("f32", "f64"):
             report(analyze_round_classes(f, fty), only_failed="--all" not in sys.argv)
+        sys.exit(0)
+    if sys.argv[1] == "hi64":
+        f = F.build(sys.argv[2], sys.argv[3])
+        report(analyze_hi64_classes(f), only_failed="--all" not in sys.argv)
         sys.exit(0)
     if sys.argv[1] == "masks":
         f = F.build(sys.argv[2], sys.argv[3])
